@@ -216,6 +216,12 @@ type Op struct {
 	Filter    *Filter    `json:"filter"`
 	FamOrders []FamOrder `json:"famOrders"`
 	Idle      bool       `json:"idle"`
+
+	// Crash events (C08)
+	HasInflight bool   `json:"hasInflight"`
+	Inflight    *Op    `json:"inflight"`
+	Started     bool   `json:"started"`
+	Point       string `json:"point"` // where the process was killed: "boundary", "clean" or <hook point>#<n>
 	WantChunks bool      `json:"-"`
 
 	Resp *Resp `json:"resp,omitempty"`
@@ -239,6 +245,7 @@ var opFields = map[string][]string{
 	"SampleRowKeys":   {"t"},
 	"GcPass":          {"t", "now"},
 	"GcAuto":          {"t", "now", "idle"},
+	"Crash":           {"hasInflight", "inflight", "started", "point"},
 }
 
 var mutFields = map[string][]string{
